@@ -57,8 +57,23 @@ def build_lib(variant, quiet=True):
     return lib
 
 
+def lib_defines(variant):
+    """the -D flags libgmssl itself was compiled with: struct layouts in the public headers depend on them"""
+    nin = os.path.join(BUILD, variant, "lib", "build.ninja")
+    want = False
+    for line in open(nin, errors="replace"):
+        if line.startswith("build CMakeFiles/gmssl.dir/src/"):
+            want = True
+        elif want and line.strip().startswith("DEFINES ="):
+            return line.split("=", 1)[1].strip()
+        elif want and line.startswith("build "):
+            want = False
+    return ""
+
+
 def build_harness(variant, lib):
     cc, _, hflags, lflags, defs = VARIANTS[variant]
+    defs = defs + " " + lib_defines(variant)
     d = os.path.join(BUILD, variant, "obj")
     os.makedirs(d, exist_ok=True)
     srcs = list(SOURCES)
@@ -75,7 +90,7 @@ def build_harness(variant, lib):
         obj = os.path.join(d, s.replace(".c", ".o"))
         objs.append(obj)
         nosan = s in NOSAN or (variant == "tsan-if" and s in NOSAN_TSAN)
-        flags = "-O2 -g" if nosan else hflags
+        flags = "-O2 -g -fno-builtin" if nosan else hflags
         key = hashlib.sha1((flags + defs + cc).encode()).hexdigest()[:12]
         stamp = obj + ".flags"
         fresh = (os.path.exists(obj) and os.path.getmtime(obj) > os.path.getmtime(src)
